@@ -518,15 +518,18 @@ func checkCmp(c CmpCase) hx.Verdict {
 	if len(ys)%2 == 0 {
 		withNull = append(withNull, "~")
 	}
-	d3 := "[" + strings.Join(withNull, ", ") + "]\n"
-	y3 := hx.Run("[min, max]", d3, hx.Opts{Out: "yaml"})
-	if v := bad(y3, d3); v != nil {
-		return *v
-	}
-	gv3, gerr3 := hx.YAMLToModel(y3.Out)
 	hi := val(sorted[len(sorted)-1])
-	if gerr3 != nil || len(gv3) != 1 || gv3[0].K != model.Seq || len(gv3[0].Elem) != 2 || gv3[0].Elem[0].K != model.Null || !model.Equal(gv3[0].Elem[1], hi) {
-		return hx.Bad("", "[min, max] of %s is %s, expected [null, %s]: null is the first value of the sort order", strings.TrimSpace(d3), strings.TrimSpace(y3.Out), sorted[len(sorted)-1].Y)
+	// (in the middle and at the end; at the very front; only at the end)
+	for _, wn := range [][]string{withNull, append([]string{"null"}, ys...), append(append([]string{}, ys...), "~"), append(append([]string{"~", "null"}, ys...), "null")} {
+		d3 := "[" + strings.Join(wn, ", ") + "]\n"
+		y3 := hx.Run("[min, max]", d3, hx.Opts{Out: "yaml"})
+		if v := bad(y3, d3); v != nil {
+			return *v
+		}
+		gv3, gerr3 := hx.YAMLToModel(y3.Out)
+		if gerr3 != nil || len(gv3) != 1 || gv3[0].K != model.Seq || len(gv3[0].Elem) != 2 || gv3[0].Elem[0].K != model.Null || !model.Equal(gv3[0].Elem[1], hi) {
+			return hx.Bad("", "[min, max] of %s is %s, expected [null, %s]: null is the first value of the sort order", strings.TrimSpace(d3), strings.TrimSpace(y3.Out), sorted[len(sorted)-1].Y)
+		}
 	}
 	return hx.OK(true, d2+doc, "cmp_min_max", "min_max_with_null")
 }
